@@ -3,7 +3,8 @@
 The length predictors and header writers of the encoder are tiny integer/bytes functions; which spelling they use
 (if / else, conditional expression, early return, named constants) is irrelevant to what they compute.  Instead of
 matching a shape, the rules evaluate them for the boundary arguments with the constant folder and compare the results.
-Only Assign / AugAssign / If / Return / assert / pass / docstrings are executed; anything else makes the result UNKNOWN.
+Only Assign / AugAssign / If / For over a constant sequence / Return / assert / pass / docstrings are executed (calls that
+the caller declares to be effects are recorded); anything else makes the result UNKNOWN.
 """
 
 from __future__ import annotations
@@ -40,6 +41,21 @@ class Raised:
         return 'raise@%d' % self.stmt.lineno
 
 
+class _LoopControl(Exception):
+    def __init__(self, kind: str) -> None:
+        self.kind = kind
+
+
+class EnumMember(str):
+    """a member of a str-valued enumeration handed to an evaluation: compares like its value, has .value and .name"""
+
+    def __new__(cls, value: str, name: str | None = None):  # noqa: ANN204
+        o = str.__new__(cls, value)
+        o.value = value  # type: ignore[attr-defined]
+        o.name = name or value  # type: ignore[attr-defined]
+        return o
+
+
 class Undecided:
     """outcome of an evaluation that met a statement it could not decide (after having run the earlier ones)"""
 
@@ -58,6 +74,7 @@ def eval_function(folder: Folder, fi: FuncInfo, args: dict[str, Any], max_steps:
         env = env_out
         env.update(args)
     steps = [0]
+    depth = [0]
 
     def ev(e: ast.AST) -> Any:
         v = folder.fold(e, fi.module, fi.cls, env)
@@ -76,13 +93,37 @@ def eval_function(folder: Folder, fi: FuncInfo, args: dict[str, Any], max_steps:
                 raise _Return(ev(st.value) if st.value is not None else None)
             if isinstance(st, ast.Raise) and outcomes:
                 raise _Raise(st)
+            if isinstance(st, (ast.Continue, ast.Break)) and depth[0] > 0:
+                raise _LoopControl('continue' if isinstance(st, ast.Continue) else 'break')
             if isinstance(st, (ast.Continue, ast.Break)) and outcomes and body is not None:
                 # the statements of a loop body are being evaluated for one turn: this ends the turn
                 raise _Return('continue' if isinstance(st, ast.Continue) else 'break')
+            if isinstance(st, ast.For) and not st.orelse and (isinstance(st.target, ast.Name) or (isinstance(st.target, ast.Tuple) and all(isinstance(x, ast.Name) for x in st.target.elts))):
+                items = ev(st.iter)
+                if not isinstance(items, (list, tuple, bytes, str)) or len(items) > 2000:
+                    raise _Unknown(st)
+                depth[0] += 1
+                try:
+                    for item in items:
+                        if isinstance(st.target, ast.Name):
+                            env[st.target.id] = item
+                        else:
+                            if not isinstance(item, (tuple, list)) or len(item) != len(st.target.elts):
+                                raise _Unknown(st)
+                            for x_, v_ in zip(st.target.elts, item):
+                                env[x_.id] = v_  # type: ignore[attr-defined]
+                        try:
+                            block(st.body)
+                        except _LoopControl as lc:
+                            if lc.kind == 'break':
+                                break
+                finally:
+                    depth[0] -= 1
+                continue
             if isinstance(st, ast.Expr) and isinstance(st.value, ast.Call) and on_effect is not None and on_effect(st.value, env):
                 continue
-            if isinstance(st, (ast.Pass, ast.Assert)):
-                continue
+            if isinstance(st, (ast.Pass, ast.Assert, ast.FunctionDef, ast.AsyncFunctionDef, ast.ClassDef, ast.Import, ast.ImportFrom, ast.Global, ast.Nonlocal)):
+                continue  # definitions and declarations: nothing happens
             if isinstance(st, ast.Expr) and isinstance(st.value, ast.Constant):
                 continue
             if isinstance(st, ast.AnnAssign) and st.value is None:
